@@ -1,7 +1,5 @@
 #![no_main]
-// The oracle lives in the harness (vh::fuzz::cert_verify); a violation aborts with its message.
+// The oracle lives in the harness (vh::fuzz::cert_verify); a violation or an escaping panic aborts.
 libfuzzer_sys::fuzz_target!(|data: &[u8]| {
-    if let Err(msg) = vh::fuzz::cert_verify(data) {
-        panic!("PROPERTY VIOLATION: {msg}");
-    }
+    vh::fuzz::guarded("cert_verify", data);
 });
